@@ -290,6 +290,9 @@ pub fn run(ctx: &Ctx) -> CheckOutput {
                     never_delivered::<f64>(&spec, 4, &mut st, &sink);
                     if recursive {
                         long_run::<f64>(&spec, &mut st, &sink);
+                        // the coarse scalar: delay lines and ladders become bit-identical within tens of
+                        // updates instead of hundreds (readiness must not revert there either)
+                        long_run::<crate::lo::Lo>(&spec, &mut st, &sink);
                     }
                     if !quick {
                         check_tree::<f32>(&spec, depth.min(8), &mut st, &sink);
